@@ -7,7 +7,9 @@ Decided (structural) clauses, see DESIGN.md section 3 / C12:
  D3 every offered analytic integral returns a value on every normal path
  D4 cache key / value correspondence and reset
  D5 shape of the batch result / length check of the single result
- D6 scalar and vectorised siblings depend on the same instance parameters
+ D6 scalar and vectorised siblings depend on the same instance parameters, and compare the coordinates with a parameter on
+    the same side of the boundary (a point exactly on the boundary is treated alike)
+ D7 a single-point evaluation hands out a fresh array, never the cached object itself (no mutable reference into the cache)
 Not decided: numerical equality scalar vs vectorised, analytic vs numerical integral."""
 import ast
 
@@ -306,7 +308,76 @@ def run(prog, ctx):
                       "scalar and vectorised bodies depend on the same instance parameters %s" % sorted(de),
                       "eval depends on instance parameters %s but eval_vectorized on %s: they cannot agree for every parameter choice"
                       % (sorted(de), sorted(dv)), scalar=sorted(de), vectorised=sorted(dv))
+            # boundary side of comparisons between the coordinates and an instance parameter
+            se, sv = _boundary_sides(fe), _boundary_sides(fv)
+            common = set(se) & set(sv)
+            bad = [a for a in sorted(common) if se[a] != sv[a]]
+            if common:
+                ctx.check(not bad, "C12.D6", "%s::eval~eval_vectorized:boundary" % ci.qual, fv.loc(),
+                          "both bodies put a point exactly on the %s boundary on the same side" % sorted(common),
+                          "eval and eval_vectorized compare the coordinates with self.%s on different sides of the boundary (%s vs %s): "
+                          "a point exactly on it is evaluated differently by the scalar and the vectorised path"
+                          % (bad[0] if bad else "?", se.get(bad[0]) if bad else "", sv.get(bad[0]) if bad else ""))
     ctx.floor("C12.D6", pairs, 8, "classes overriding both eval and eval_vectorized")
+
+    # ---------------------------------------------------------------- D7
+    tm7 = Terms(call.node, max_depth=0)
+    rets = [r for r in R.return_paths(call)[0]]
+    single_rets = []
+    for r in rets:
+        guards = [g for (g, gn) in R.dominating_guards(call, r, tm7) if gn.kind == "test"]
+        if any(g[0] == "call" and g[1] == ("a", ("n", "np"), "isscalar") for g in guards):
+            single_rets.append(r)
+    ctx.floor("C12.D7", len(single_rets), 1, "returns of the single-point path")
+    for k, r in enumerate(single_rets):
+        t = tm7.term(r.ast.value)
+        fresh = t[0] == "call" and (t[1] in (("a", ("n", "np"), "array"), ("a", ("n", "np"), "copy")) or
+                                    (t[1][0] == "a" and t[1][2] == "copy")) and dict(t[3]).get("copy") != ("c", "False")
+        ctx.check(fresh, "C12.D7", R.key_of(call, "single-result-is-a-copy#%d" % k), call.loc(r.ast),
+                  "the single-point result is a fresh array (np.array copies)",
+                  "`%s` can hand out the cached object itself: a caller that uses the result in place (v *= w) rewrites the cache and later "
+                  "evaluations of the same point return the modified value" % src(r.ast))
+
+
+def _boundary_sides(fi):
+    """param attr -> 'closed-above' if the comparison of the coordinates with self.<attr> treats equality like 'greater'
+    (x >= b / x < b), 'closed-below' if it treats equality like 'smaller' (x <= b / x > b)."""
+    out = {}
+    sn = fi.self_name
+    coord = fi.params[1] if len(fi.params) > 1 else None
+    for n in ast.walk(fi.node):
+        if not (isinstance(n, ast.Compare) and len(n.ops) == 1):
+            continue
+        l, r = n.left, n.comparators[0]
+
+        def mentions_coord(e):
+            return any(isinstance(x, ast.Name) and x.id == coord for x in ast.walk(e))
+
+        def param_of(e):
+            for x in ast.walk(e):
+                a = R.self_attr(x, sn)
+                if a is not None:
+                    return a
+            return None
+        op = type(n.ops[0]).__name__
+        if mentions_coord(l) and param_of(r) and not mentions_coord(r):
+            a = param_of(r)
+        elif mentions_coord(r) and param_of(l) and not mentions_coord(l):
+            a = param_of(l)
+            op = {"Lt": "Gt", "Gt": "Lt", "LtE": "GtE", "GtE": "LtE"}.get(op, op)
+        else:
+            continue
+        if op in ("GtE", "Lt"):
+            side = "equality counts as above (x >= b / x < b)"
+        elif op in ("LtE", "Gt"):
+            side = "equality counts as below (x <= b / x > b)"
+        else:
+            continue
+        if a in out and out[a] != side:
+            out[a] = "mixed"
+        else:
+            out[a] = side
+    return out
 
 
 IGNORED_ATTRS = {"check_vectorization", "debug", "log", "eval", "eval_vectorized", "output_length", "f_dict", "old_f_dict",
